@@ -63,6 +63,8 @@ for _n in _REPR:
         _REPR[_n]['props'] = ['C05']
     elif '_clone' in _n:
         _REPR[_n]['props'] = ['C17', 'C15']
+    elif '_ones' in _n:
+        _REPR[_n]['props'] = ['C17', 'C05', 'C09']      # UBig::ones is a C09 operation
     else:
         _REPR[_n]['props'] = ['C17', 'C05']
 
@@ -109,4 +111,5 @@ PROP_UNITS = {
     'C17': {'kani': ['int_buffer', 'int_repr']},
     'C05': {'kani': ['int_repr', 'int_cmp']},
     'C15': {'kani': ['int_repr', 'int_forms']},
+    'C09': {'kani': ['int_repr']},
 }
